@@ -85,7 +85,10 @@ Fixpoint input_once (fuel : nat) (st : sm) (lineno : bool) : sm * event :=
       | nxt :: more, S f =>
           input_once f {| s_inp := nxt; s_rest := more; s_sc := s_sc st; s_stack := s_stack st;
                           s_bol := true; s_line := s_line st; s_more := s_more st; s_done := s_done st |} lineno
-      | _, _ => (st, EIn None)
+      | _, _ =>
+          (* the end of input has been reached: the (restarted) buffer is at the beginning of a line *)
+          ({| s_inp := s_inp st; s_rest := s_rest st; s_sc := s_sc st; s_stack := s_stack st; s_bol := true;
+              s_line := s_line st; s_more := s_more st; s_done := s_done st |}, EIn None)
       end
   end.
 
